@@ -86,10 +86,13 @@ func lookupWellKnown(ctx context.Context, serverNameType spec.ServerName, dial d
 	expiryTimestamp := int64(0)
 
 	if expiresHeader != "" {
-		// parse the HTTP-date (RFC7231 section 7.1.1.1)
-		// Mon Jan 2 15:04:05 -0700 MST 2006
-		referenceTimeFormat := "Mon, 02 Jan 2006 15:04:05 MST"
-		expiresTime, err := time.Parse(referenceTimeFormat, expiresHeader)
+		// parse the HTTP-date (RFC7231 section 7.1.1.1), in any of the three
+		// forms a recipient has to understand
+		expiresTime, err := http.ParseTime(expiresHeader)
+		if err != nil {
+			// ... and, as before, with a time zone abbreviation other than GMT
+			expiresTime, err = time.Parse("Mon, 02 Jan 2006 15:04:05 MST", expiresHeader)
+		}
 		if err == nil {
 			expiryTimestamp = expiresTime.Unix()
 		}
